@@ -41,8 +41,8 @@ CHECKS = {
     "C10": dict(pkg="benchunit", tech="bounded-exhaustive enumeration of ulp-neighbourhoods of every prefix threshold and a 4-digit decimal lattice, checked in exact rational arithmetic", sec="3/C10",
                 text="Every float within ±N ulp of every rounding threshold of every prefix in both classes, and the full 4-significant-digit lattice, is formatted by the real scaler and checked with math/big.",
                 note="Exhaustive over the stated lattice, not over all float64."),
-    "C11": dict(pkg="internal/stats", tech="bounded-exhaustive enumeration of all multiset pairs over a small alphabet against brute-force permutation distributions in exact rationals", sec="3/C11",
-                text="All pairs of samples over {1..k} up to the size bound × 3 alternatives are compared with the exact permutation distribution; PMF/CDF are compared pointwise including arguments outside the support.",
+    "C11": dict(pkg="internal/stats", tech="bounded-exhaustive enumeration of all multiset pairs over a small alphabet against brute-force permutation distributions in exact rationals; at the exact-method size limits an explicit-state search over (tie groups decided, members in sample 1, 2U) with exact counts, validated against the brute force", sec="3/C11",
+                text="All pairs of samples over {1..k} up to the size bound × 3 alternatives are compared with the exact permutation distribution; PMF/CDF are compared pointwise including arguments outside the support; samples exactly at and one below the limits of the exact method (50 untied / 25 tied) get the same oracle with the exact distribution from the explicit-state search.",
                 note="Trusts math/big and the brute-force definition."),
     "C12": dict(pkg="internal/stats", tech="exhaustive evaluation over stated finite lattices of (x, ν), beta parameters and sample sequences against exact-rational / numerical-integration references", sec="3/C12",
                 text="The domain is continuous; the check is exhaustive over a stated lattice and over all ordered sample sequences up to a length bound, with stated tolerances.",
